@@ -1,7 +1,8 @@
-"""usage: c06_mutations.py <name> ; applies mutation <name> to the scratch worktree /tmp/wt_a06
-(git -C /repo worktree add --detach /tmp/wt_a06 HEAD), runs ./check C06 with FINVERIF_REPO on it, reverts."""
+"""usage: c06_mutations.py <name> ; applies mutation <name> to the scratch worktree $C06_WT (default /tmp/wt_a06;
+git -C /repo worktree add --detach $C06_WT HEAD), runs ./check C06 in $C06_CLONE (default /tmp/wk/a06) with FINVERIF_REPO on it, reverts."""
 import subprocess, sys, os, re
-WT='/tmp/wt_a06'
+WT=os.environ.get('C06_WT','/tmp/wt_a06')
+CLONE=os.environ.get('C06_CLONE','/tmp/wk/a06')
 R='financepy/products/rates/'
 M={
  'revert_2a49ff7': (R+'ois.py', "        if self.float_leg.leg_type == SwapTypes.PAY:\n            float_leg_value = -float_leg_value\n", "        if False:\n            float_leg_value = -float_leg_value\n"),
@@ -31,6 +32,17 @@ M={
  'equity_payment_from_contract_notional': ('financepy/products/equity/equity_swap_leg.py', "payment_amount = next_notional - last_notional", "payment_amount = next_notional - self.notional"),
  'equity_no_dfvalue': ('financepy/products/equity/equity_swap_leg.py', "df_payment = discount_curve.df(payment_dt) / df_value", "df_payment = discount_curve.df(payment_dt)"),
  'fixed_cum_last_flow_only_if_gt1': (R+'swap_fixed_leg.py', "            payment = year_frac * self.notional * self.cpn\n", "            payment = year_frac * self.notional * self.cpn if len(self.payments) < 40 else year_frac * self.notional * self.cpn * 1.0001\n"),
+ # ---- growth round 6 (basis swaps as wholes, future -> FRA)
+ 'basis_leg2_sign': (R+'ibor_basis_swap.py', "        value = float_leg_1Value + float_leg_2Value\n", "        value = float_leg_1Value - float_leg_2Value\n"),
+ 'basis_leg2_type_not_flipped': (R+'ibor_basis_swap.py', "            leg2Type = SwapTypes.RECEIVE\n", "            leg2Type = SwapTypes.PAY\n"),
+ 'basis_index_curve_discounts_leg2': (R+'ibor_basis_swap.py', "            value_dt,\n            discount_curve,\n            index_curve_leg_2,\n", "            value_dt,\n            index_curve_leg_2,\n            index_curve_leg_2,\n"),
+ 'ois_basis_spreads_swapped': (R+'ois_basis_swap.py', "                                           ibor_spread,\n                                           ibor_freq_type,", "                                           ois_spread,\n                                           ibor_freq_type,"),
+ 'ois_basis_lag_on_ibor_leg': (R+'ois_basis_swap.py', "                                           principal,\n                                           0,\n", "                                           principal,\n                                           ois_payment_lag,\n"),
+ 'ois_basis_lag_dropped': (R+'ois_basis_swap.py', "                                          principal,\n                                          ois_payment_lag,\n", "                                          principal,\n                                          0,\n"),
+ 'future_fra_payer': (R+'ibor_future.py', "            pay_fixed_rate=False,\n", "            pay_fixed_rate=True,\n"),
+ 'future_fra_notional_dropped': (R+'ibor_future.py', "            notional=self.contract_size,\n", "            notional=100.0,\n"),
+ 'future_fra_end_is_delivery_plus_90': (R+'ibor_future.py', "        self.end_of_interest_period = self.delivery_dt.next_imm_date()\n", "        self.end_of_interest_period = self.delivery_dt.add_days(90)\n"),
+
 }
 name=sys.argv[1]
 f,old,new=M[name]
@@ -42,13 +54,13 @@ assert s.count(old)==1, (name, s.count(old))
 open(p,'w',newline='').write(s.replace(old,new))
 try:
     env=dict(os.environ, FINVERIF_REPO=WT, VERIF_SEED=os.environ.get('VERIF_SEED','0'))
-    r=subprocess.run(['./check','C06'],cwd='/tmp/wk/a06',env=env,capture_output=True,text=True)
+    r=subprocess.run(['./check','C06'],cwd=CLONE,env=env,capture_output=True,text=True)
     out=[l for l in r.stdout.split('\n') if l.startswith(('VIOLATION','C06 ['))]
     print(name, 'rc=%d'%r.returncode, ' | '.join(out)[:400])
     m=re.search(r'replay=(\S+)', r.stdout)
     if m:
         import json
-        rp=json.load(open('/tmp/wk/a06/'+m.group(1)))
+        rp=json.load(open(os.path.join(CLONE,m.group(1))))
         v=rp.get('violation')
         if v: print('   first:', v['what'][:150], '| clause', v['clause'], '| tag', v['case'].get('tag'))
         else: print('   broken:', str(rp.get('broken'))[:300])
